@@ -219,6 +219,7 @@ func runC06(c *Ctx) {
 							}
 							sub[docCall.key] = u.Bool(boolRef(hp == 1))
 							loopCtlSub(u, s, loops, docStore.Cond, sub)
+							identitySub(u, docStore.Cond, cand, inc, sub)
 							// the call's second argument is substituted too; key the call before substitution
 							val, ok, res := foldCond(u, docStore.Cond, sub)
 							n++
@@ -273,6 +274,7 @@ func runC06(c *Ctx) {
 									}
 									sub[basicCall.key] = u.Bool(boolRef(hp == 1))
 									loopCtlSub(u, s, loops, basicStore.Cond, sub)
+									identitySub(u, basicStore.Cond, cand, inc, sub)
 									var dbits int64
 									if dr != nil {
 										if d == 0 {
@@ -414,6 +416,7 @@ func runC06(c *Ctx) {
 							sub[inc.key] = u.mk("new", "incumbent", inc.Typ)
 						}
 						sub[call.key] = u.Bool(boolRef(hp == 1))
+						identitySub(u, chosen, cand, inc, sub)
 						for _, at := range u.AtomsOf(cont) {
 							sub[at.key] = u.Bool(boolRef(u.bdd.Implies(cont, u.Atom(at))))
 						}
@@ -621,6 +624,17 @@ func contCond(u *U, s *Summary, l *Loop) Ref {
 // atoms implied by cond: atoms of the "continue" condition of a loop whose
 // body cond lies in are fixed so that the loop continues, atoms of loops
 // already left so that the loop has ended.
+// identitySub: a test "candidate == incumbent" in an admission condition is set to false.  Either
+// answer is behaviour-neutral (replacing a rule by itself changes nothing, and the relation is
+// irreflexive by C07.R1); the distinct case is the one the table is about.
+func identitySub(u *U, cond Ref, cand, inc *E, sub map[string]*E) {
+	for _, at := range u.AtomsOf(cond) {
+		if at.Op == "eq" && ((at.Args[0] == cand && at.Args[1] == inc) || (at.Args[0] == inc && at.Args[1] == cand)) {
+			sub[at.key] = u.Bool(False)
+		}
+	}
+}
+
 func loopCtlSub(u *U, s *Summary, loops []*Loop, cond Ref, sub map[string]*E) {
 	for _, l := range loops {
 		cont := contCond(u, s, l)
